@@ -146,6 +146,16 @@ Theorem shutdown_bound_usleep : forall ps fuel ev d, ps <> [] -> NZ_progs ps ->
 Proof. exact shutdown_bound_usleep_lemma. Qed.
 Print Assumptions shutdown_bound_usleep.
 
+(* the part of interrupt_at_most_once that holds: a thread_usleep that really slept consumes the
+   interrupt it reports; no later event of that thread reports the same (or an older) delivery *)
+Theorem sleep_consumes_interrupt : forall ps fuel i j e1 e2 d, ps <> [] -> NZ_progs ps ->
+  nth_error (run_trace fuel ps) i = Some e1 -> nth_error (run_trace fuel ps) j = Some e2 -> (i < j)%nat ->
+  ev_tid e1 = ev_tid e2 ->
+  ev_cop ps e1 = Some (OUsleep d) -> ev_k e1 = [1] -> ev_ret e1 = -1 ->
+  reports_interrupt ps e2 -> (ev_src e1 < ev_src e2)%nat.
+Proof. exact sleep_consumes_interrupt_lemma. Qed.
+Print Assumptions sleep_consumes_interrupt.
+
 (* FINDINGS: the model, faithful to the code, refutes the two remaining clauses *)
 Theorem interrupt_at_most_once_refuted : ~ interrupt_at_most_once.
 Proof. exact interrupt_at_most_once_refuted_lemma. Qed.
